@@ -26,6 +26,12 @@ CHECKS = {
  "C24": dict(engine=A, technique="explicit-state enumeration of malformed charts (one malformation each) reached by start_at and by dispatch, with a call-budget watchdog",
    text="Every forest <= 6 states with exactly one malformation (initial transition to self/ancestor/sibling/elsewhere through every well-formed init chain; handler returning None for user signals or always) reached by start_at and by a transition from every resting state on 4 hosts must raise HsmTopologyException within a 3000-call budget; a hang, a normal return or another exception is a violation.",
    note="Transitions into an always-None state are only required to terminate (the event is not offered to the faulty state there). Bounded forests <= 6 (quick) / 7 (thorough).", ref="6/C24"),
+ "C04": dict(engine=B, technique="stateless preemption-bounded exploration of the real active-object threads under a controlled scheduler; brute-force linearisability vs reference deque",
+   text="Harnesses H1 (2-3 external posters mixing post_fifo/post_lifo), H2 (+ posts from inside a handler), H3 (+ a timed source on a virtual clock), H4 (+ publications through the fabric), H5 (capacity 2, overflow) run the real ActiveObject/LockingDeque/fabric code on real threads gated by a cooperative scheduler; every schedule with <= 2 deviations (preemptions / early timer; H4 bound 1 in the quick tier) at source-line granularity of the queue code is executed. Oracle per execution: posts linearisable against a reference deque given the observed dispatch order, exactly-once, empty queue and waiting consumer at quiescence, steps never nest.",
+   note="Bounds: 2-3 posters x 1-2 posts, preemption bound 2 (3 for one harness in the thorough tier); scheduling points = stand-in primitive operations + source lines of LockingDeque, run_event, next_rtc, post_fifo/post_lifo, timer runner, fabric runners; stand-in primitives (CQueue/CEvent/CThread) trusted to behave like the stdlib ones.", ref="4, 6/C04"),
+ "C05": dict(engine=B, technique="stateless preemption-bounded exploration with a fair suffix and a step horizon (livelock/deadlock detection) of real posters vs the real consumer",
+   text="2 (quick) or 3 (thorough) posters (fifo, lifo, mixed; capacity 500 and 3) race the running active-object thread; every schedule with <= 2 preemptions at source-line granularity is run to quiescence under a scheduler that is fair after the deviations are spent; a run that reaches the step horizon is a livelock, all-blocked with an unfinished poster is a deadlock.",
+   note="Bounds: preemption bound 2, horizon 2000 scheduling points (normal runs need ~120); fairness = forced rotation after 60 consecutive points of one thread.", ref="4.5, 6/C05"),
 }
 NOT_YET = "check not built yet in this round (planned, see DESIGN.md section 6)"
 
